@@ -84,6 +84,10 @@ pub struct Inv {
     pub fault_seed: u64,
     /// after a hard fault / crash: repeat the invocation fault-free with overwrite confirmed
     pub recover: bool,
+    /// when non-zero every read and write on a project file transfers at most this many bytes
+    /// (a slow pipe, a network file system): in force for every execution of the invocation
+    #[serde(default)]
+    pub iocap: u32,
 }
 
 #[derive(Serialize, Deserialize, Clone, Debug, PartialEq, Eq)]
@@ -546,6 +550,7 @@ pub fn gen_scn(d: &Data, r: &mut Rng, faulty: bool) -> Scn {
             plan: vec![],
             fault_seed: r.next_u64(),
             recover: r.chance(1, 2),
+            iocap: 0,
         };
         let second_answers: Vec<String> = match r.below(4) {
             0 => vec!["n".into(), "y".into(), "y".into()],
@@ -694,6 +699,7 @@ pub fn gen_scn(d: &Data, r: &mut Rng, faulty: bool) -> Scn {
                 _ => FaultClass::Crash,
             }
         };
+        let fault_seed = r.next_u64();
         invs.push(Inv {
             cmd,
             cwd,
@@ -706,8 +712,9 @@ pub fn gen_scn(d: &Data, r: &mut Rng, faulty: bool) -> Scn {
             dirseed: if faulty || r.chance(1, 2) { r.next_u64() | 1 } else { 0 },
             class,
             plan: vec![],
-            fault_seed: r.next_u64(),
+            fault_seed,
             recover: matches!(class, FaultClass::Hard | FaultClass::Crash) && r.chance(2, 3),
+            iocap: crate::cli::cap_from(fault_seed),
         });
     }
     if invs.len() >= 2 && r.chance(1, 4) {
@@ -736,7 +743,7 @@ pub fn gen_scn(d: &Data, r: &mut Rng, faulty: bool) -> Scn {
             maybe_untitled_first(&mut groups, d, r);
             Cmd::Edit { path: rs.clone(), text: render_rsca(&groups, &fmt, r), meaning: Meaning::Rules(groups) }
         };
-        invs.insert(at, Inv { cmd, cwd: String::new(), answers: vec![], detrand: 1, dirseed: 0, class: FaultClass::None, plan: vec![], fault_seed: 0, recover: false });
+        invs.insert(at, Inv { cmd, cwd: String::new(), answers: vec![], detrand: 1, dirseed: 0, class: FaultClass::None, plan: vec![], fault_seed: 0, recover: false, iocap: 0 });
     }
     Scn { files, meaning, dirs, invs }
 }
